@@ -5,6 +5,7 @@ import (
 	"errors"
 	"fmt"
 	"math"
+	"sort"
 	"strings"
 	"time"
 
@@ -30,11 +31,13 @@ type c07World struct {
 	pay   [][]byte
 	parts []string
 	warm  map[string]*ae.Session
+	suffix string
 }
 
-func newC07World(spec PolicySpec) *c07World {
+func newC07World(spec PolicySpec, suffix string) *c07World {
 	resetGlobals()
-	cw := &c07World{w: NewWorld(), spec: spec, warm: map[string]*ae.Session{}}
+	cw := &c07World{w: NewWorld(), spec: spec, warm: map[string]*ae.Session{}, suffix: suffix}
+	cw.w.MS.Suffix = suffix // a region-suffixing metastore switches the SDK to suffixed partitions
 	cw.f = cw.w.NewFactory(spec)
 	mk := func(part string, n int) {
 		s, _ := cw.f.GetSession(part)
@@ -180,7 +183,7 @@ func (cw *c07World) recordCases(thorough bool) []*c07Case {
 			{"key-created-max", func(d *ae.DataRowRecord) { d.Key.Created = math.MaxInt64 }},
 			{"key-created-min", func(d *ae.DataRowRecord) { d.Key.Created = math.MinInt64 }},
 			{"key-revoked", func(d *ae.DataRowRecord) { d.Key.Revoked = true }},
-			{"parent-id-is-sk", func(d *ae.DataRowRecord) { d.Key.ParentKeyMeta.ID = ref.SystemKeyID("s", "p", "") }},
+			{"parent-id-is-sk", func(d *ae.DataRowRecord) { d.Key.ParentKeyMeta.ID = ref.SystemKeyID("s", "p", cw.suffix) }},
 			{"data-appended", func(d *ae.DataRowRecord) { d.Data = append(d.Data, 0) }},
 			{"data-doubled", func(d *ae.DataRowRecord) { d.Data = append(d.Data, d.Data...) }},
 		} {
@@ -189,6 +192,33 @@ func (cw *c07World) recordCases(thorough bool) []*c07Case {
 			for via := 0; via <= 1; via++ {
 				cs = append(cs, &c07Case{name: fmt.Sprintf("structural-%s [rec %d via %d]", m.n, ri, via), part: cw.parts[ri], drr: d, accept: acc, viaLoad: via})
 			}
+		}
+		// the parent key id as an arbitrary string: every prefix and every suffix of the genuine id, ids without any
+		// separator, separators only, extensions, a very long one
+		gid := r.Key.ParentKeyMeta.ID
+		idSet := map[string]bool{}
+		for n := 0; n < len(gid); n++ {
+			idSet[gid[:n]] = true
+			idSet[gid[n+1:]] = true
+			idSet[gid[:n]+gid[n+1:]] = true
+		}
+		for _, x := range []string{"x", "A", "\xff\xfe", "_", "__", "___", "_IK_", "_IK__", "_SK_", gid + "_", gid + "_x", gid + "x", "_" + gid, strings.ToLower(gid), strings.Repeat("k", 70000), strings.Repeat("_", 300)} {
+			idSet[x] = true
+		}
+		delete(idSet, gid)
+		var idList []string
+		for x := range idSet {
+			idList = append(idList, x)
+		}
+		sort.Strings(idList)
+		for _, x := range idList {
+			d := cloneDRR(r)
+			d.Key.ParentKeyMeta.ID = x
+			nm := x
+			if len(nm) > 40 {
+				nm = fmt.Sprintf("%s...(%d bytes)", nm[:20], len(x))
+			}
+			cs = append(cs, &c07Case{name: fmt.Sprintf("structural-parent-id %q [rec %d]", nm, ri), part: cw.parts[ri], drr: d, accept: acc})
 		}
 		cs = append(cs, &c07Case{name: fmt.Sprintf("loader-error [rec %d]", ri), part: cw.parts[ri], drr: r, accept: acc, viaLoad: 2})
 		cs = append(cs, &c07Case{name: fmt.Sprintf("loader-returns-nil [rec %d]", ri), part: cw.parts[ri], drr: r, accept: acc, viaLoad: 3})
@@ -291,7 +321,7 @@ func (cw *c07World) rowMutations() []rowMutation {
 // CheckC07 runs the mutation sets with cold and warm caches.
 func CheckC07(r *Report) {
 	r.Level = "exploration"
-	r.Rule = "every single-bit flip and every truncation of Data and of the wrapped data key of 4 genuine records (2 partitions x 2 key generations), every recombination of the 5 record fields across them (4^5), structural cases, loader failures, and every single-bit flip / truncation / structural corruption of every IK and SK row in the metastore; each through Decrypt (and Load) on a cold session and on a session with every key cached; non-trivial = cases that pass the partition guard and reach key loading or AEAD verification (all mutations of genuine records do), distinct by construction"
+	r.Rule = "every single-bit flip and every truncation of Data and of the wrapped data key of 4 genuine records (2 partitions x 2 key generations), every recombination of the 5 record fields across them (4^5), structural cases (among them the parent key id replaced by every prefix / suffix / one-character deletion of itself and by separator-free, separator-only, extended and very long strings), loader failures, and every single-bit flip / truncation / structural corruption of every IK and SK row in the metastore; each through Decrypt (and Load), with a plain and with a region-suffixing metastore, on a cold session and on a session with every key cached; non-trivial = cases that pass the partition guard and reach key loading or AEAD verification (all mutations of genuine records do), distinct by construction"
 	specs := []PolicySpec{SpecDefault}
 	if r.Thorough() {
 		specs = []PolicySpec{SpecDefault, SpecNoCache, SpecShared("lru", 1), SpecShared("slru", 2)}
@@ -308,9 +338,21 @@ func CheckC07(r *Report) {
 			r.Viols = append(r.Viols, Viol{Property: "C07", Harness: "C07/" + spec, Sig: sig, Msg: v.Msg, Ops: ops})
 		}
 	}
+	type wcfg struct {
+		spec   PolicySpec
+		suffix string
+	}
+	var worlds []wcfg
 	for _, spec := range specs {
+		worlds = append(worlds, wcfg{spec, ""}, wcfg{spec, "us-west-2"})
+	}
+	for _, wc := range worlds {
+		spec := wc.spec
+		if wc.suffix != "" {
+			spec.Name += "+region-suffix"
+		}
 		t0 := time.Now()
-		cw := newC07World(spec)
+		cw := newC07World(spec, wc.suffix)
 		cw.warmUp()
 		n := 0
 		cases := cw.recordCases(r.Thorough())
